@@ -26,6 +26,25 @@ CHECKS = {
              '(start_hi + len_hi <= 3) in every run; low words include the boundary values.',
         note='Column layout of cat/info is not judged.  Names avoid . : # * " and the name L.  Trusts the '
              'serialiser and decoder in vf.discmodel / vf.refmodel.'),
+    'C14': dict(
+        category='exploration', design_ref='DESIGN.md section 2, C14',
+        technique='reference-model monitor: sector ownership model vs free / space / sector-map / extract-unused, plus cross-command conservation',
+        text='Generated non-overlapping layouts (0..31/62 files, zero-length files, gaps anywhere, all four Watford '
+             'half combinations, every Opus volume); free numbers, the multiset of space gaps and their total, '
+             'every sector-map cell and the extract-unused file set (names, sizes, fingerprinted contents) are '
+             'compared with the ownership model, and extract-unused is compared with the runs sector-map itself '
+             'shows as unowned.',
+        note='Used-sector figure of an Opus volume without non-empty files is not judged; labels of catalogue '
+             'sectors need only be neither "-" nor a file label.'),
+    'C15': dict(
+        category='exploration', design_ref='DESIGN.md section 2, C15',
+        technique='reference-model monitor: documented wildcard matcher / name resolver vs info, type, list, dump',
+        text='For every printing character (regex metacharacters included) a catalogue holding it in every position '
+             'of short names is queried with the one- and two-character patterns around it; random catalogues over '
+             'small alphabets are queried with patterns derived from their names under random --dir/--drive '
+             'defaults and Opus volume letters; type/list/dump are probed with present and absent names.',
+        note='Directory letters are probed in matching case for type/list/dump; catalogue names never contain '
+             '. : # * or space.'),
 }
 
 PENDING_REASON = 'check not built yet in this revision of /verif (see DESIGN.md section 7 for the order of work)'
